@@ -1,6 +1,6 @@
 (* Proofs about Model/Detail.v: no panic, shape of the process text (forward splice), stripping the
    annotations, purity/idempotence of GetDetailText. *)
-From Coq Require Import String Ascii NArith ZArith List Bool Lia Arith.
+From Coq Require Import String Ascii NArith ZArith List Bool Lia Arith Sorted.
 From Coq Require Import ZifyBool ZifyNat.
 From DS Require Import Model.Str Model.Detail.
 Import ListNotations.
@@ -136,7 +136,10 @@ Section Groups.
 
   Definition span_in (hi : Z) (s : span) : Prop := (0 <= sp_b s /\ sp_b s <= sp_e s /\ sp_e s <= hi)%Z.
   Definition group_ok (g : group) : Prop :=
-    g_spans g <> [] /\ (0 <= g_b g /\ g_b g <= g_e g /\ g_e g <= offset)%Z /\ Forall (span_in (g_e g)) (g_spans g).
+    g_spans g <> [] /\ (0 <= g_b g /\ g_b g <= g_e g /\ g_e g <= offset)%Z /\ Forall (span_in (g_e g)) (g_spans g) /\
+    (* the group starts where its first span starts and ends at the largest End of its spans *)
+    g_b g = sp_b (hd dummy_span (g_spans g)) /\ g_tag g = sp_tag (hd dummy_span (g_spans g)) /\
+    Exists (fun s => sp_e s = g_e g) (g_spans g).
 
   (* reversed list: the head is the latest group; consecutive groups are strictly separated *)
   Fixpoint sep_chain (m : list group) : Prop :=
@@ -166,20 +169,26 @@ Section Groups.
         change (sp_e i) with (last_end_of (mkGroup (sp_b i) (sp_e i) (sp_tag i) [i] :: m)) at 1.
         apply IH.
         * constructor; [|exact Hok]. unfold group_ok; cbn. split; [discriminate|]. split; [lia|].
-          constructor; [unfold span_in; lia|constructor].
+          split; [constructor; [unfold span_in; lia|constructor]|].
+          split; [reflexivity|]. split; [reflexivity|]. constructor. reflexivity.
         * destruct m as [|g m0]; cbn; [exact I|]. cbn in Enew. split; [lia|exact Hsep].
       + (* joins the latest group *)
         destruct m as [|g m0]; [cbn in Enew; lia|]. cbn [last_end_of] in *.
         set (e' := if (g_e g <? sp_e i)%Z then sp_e i else g_e g).
         change e' with (last_end_of (mkGroup (g_b g) e' (g_tag g) (g_spans g ++ [i]) :: m0)) at 1.
         inversion Hok as [|? ? Hg Hm0]; subst.
-        destruct Hg as (Hne & Hb & Hsp).
+        destruct Hg as (Hne & Hb & Hsp & Hhd & Htg & Hex).
         assert (He' : (g_e g <= e' /\ sp_e i <= e' /\ e' <= offset)%Z) by (unfold e'; destruct (g_e g <? sp_e i)%Z eqn:E1; lia).
         apply IH.
         * constructor; [|exact Hm0]. unfold group_ok; cbn. split; [destruct (g_spans g); discriminate|].
-          split; [lia|]. apply Forall_app. split.
+          split; [lia|]. split; [apply Forall_app; split|].
           -- eapply Forall_impl; [|exact Hsp]. intros s Hs. eapply span_in_mono; [|exact Hs]. lia.
           -- constructor; [unfold span_in; lia|constructor].
+          -- split; [destruct (g_spans g); [congruence|exact Hhd]|].
+             split; [destruct (g_spans g); [congruence|exact Htg]|].
+             apply Exists_app. unfold e'. destruct (g_e g <? sp_e i)%Z eqn:E1.
+             ++ right. constructor. reflexivity.
+             ++ left. exact Hex.
         * destruct m0 as [|g' m1]; cbn; [exact I|]. cbn in Hsep. exact Hsep.
   Qed.
 End Groups.
@@ -210,7 +219,7 @@ Qed.
 Lemma slices_ok_true offset s g :
   group_ok offset g -> Z.to_nat (g_e g) <= String.length s -> slices_ok s g = true.
 Proof.
-  intros (Hne & Hb & Hsp) Hl. unfold slices_ok.
+  intros (Hne & Hb & Hsp & _) Hl. unfold slices_ok.
   apply andb_true_iff. split; [lia|].
   apply forallb_forall. intros x Hx.
   assert (F : Forall (span_in (g_e g)) (removelast (sort_end (g_spans g))))
@@ -231,7 +240,7 @@ Lemma render_step offset n src g l :
   ranges_ok (String.length src) 0 l -> Z.to_nat (g_e g) <= first_b (String.length src) l ->
   render_group n (DText (splice src 0 l)) g = DText (splice src 0 (replacement n src g :: l)).
 Proof.
-  intros Hg Hoff Hr Hq. pose proof Hg as (Hne & Hb & Hsp).
+  intros Hg Hoff Hr Hq. pose proof Hg as (Hne & Hb & Hsp & _).
   apply ranges_ok_le in Hr. destruct Hr as [_ Hfl].
   destruct (splice_prefix src (Z.to_nat (g_e g)) l Hq Hfl) as [P1 P2].
   rewrite render_group_nonempty by exact Hne.
@@ -258,7 +267,7 @@ Proof.
   - split; [reflexivity|exact Hr].
   - inversion Hok as [|? ? Hg Hm]; subst. cbn [last_end_of] in Hq.
     rewrite (render_step offset n src g l Hg Hoff Hr Hq).
-    pose proof Hg as (Hne & Hb & Hsp).
+    pose proof Hg as (Hne & Hb & Hsp & _).
     assert (Hsep' : sep_chain m /\ (m <> [] -> (last_end_of m < g_b g)%Z)).
     { destruct m as [|g' m']; cbn in *; [split; [exact I|congruence]|]. destruct Hsep. split; [assumption|intros _; lia]. }
     destruct Hsep' as [Hs1 Hs2].
@@ -270,7 +279,7 @@ Proof.
     + intros Hm' _. unfold replacement. cbn [first_b]. specialize (Hs2 Hm'). destruct m; [congruence|].
       cbn [last_end_of] in *. inversion Hm as [|? ? Hg' ?]; subst. destruct Hg' as (_ & Hb' & _). lia.
     + rewrite E. rewrite map_app. cbn [map]. rewrite <- !app_assoc. cbn [app]. split; [reflexivity|].
-      rewrite map_app in R. cbn [map] in R. rewrite <- app_assoc in R. exact R.
+      exact R.
 Qed.
 
 (* ------------------------------------------------------------------ no panic + shape, for ALL span lists *)
@@ -281,17 +290,19 @@ Theorem detail_shape_all data offset spans ret :
   make_detail_res data offset spans ret =
     DText (finish (splice src 0 (map (replacement (length gs) src) gs)) ret).
 Proof.
-  intros Hoff src gs. unfold make_detail_res.
+  intros Hoff. cbv zeta. unfold make_detail_res.
   replace (Nat.leb offset (String.length data)) with true by (symmetry; apply Nat.leb_le; exact Hoff).
-  cbn [negb]. subst gs. unfold groups_of.
+  cbn [negb]. unfold groups_of.
   destruct (build_groups_ok (Z.of_nat offset) spans) as (m & Em & Hok & Hsep). rewrite Em.
-  assert (Hl : String.length src = offset) by (apply slen_stake; exact Hoff).
-  assert (S0 : DText src = DText (splice src 0 [])) by (cbn; reflexivity).
-  fold src. rewrite S0.
-  destruct (fold_render (Z.of_nat offset) (length m) src m [] Hok Hsep) as [E _]; try (cbn; lia).
-  - cbn. destruct m as [|g m']; cbn; [lia|]. inversion Hok as [|? ? Hg ?]; subst. destruct Hg as (_ & Hb & _). lia.
+  assert (Hl : String.length (stake offset data) = offset) by (apply slen_stake; exact Hoff).
+  remember (stake offset data) as src eqn:Esrc.
+  destruct (fold_render (Z.of_nat offset) (length m) src m [] Hok Hsep) as [E _].
+  - lia.
+  - cbn. lia.
+  - cbn [first_b]. destruct m as [|g m']; cbn [last_end_of]; [lia|].
+    inversion Hok as [|? ? Hg ?]; subst. destruct Hg as (_ & Hb & _). lia.
   - intros _ Hn. congruence.
-  - rewrite E. rewrite app_nil_r, rev_length. reflexivity.
+  - change (splice src 0 []) with src in E. rewrite E. rewrite app_nil_r, rev_length. reflexivity.
 Qed.
 
 Theorem make_detail_no_panic data offset spans ret :
@@ -330,7 +341,7 @@ Qed.
 (* concat of the groups' spans = the spans that pass the filter, in order *)
 Lemma build_groups_concat offset l : forall lastEnd m m',
   build_groups offset l lastEnd m = GOk m' ->
-  concat (map g_spans (rev m')) = concat (map g_spans (rev m)) ++ filter (fun s => negb (span_skipped offset s)) l.
+  concat (map g_spans (rev m')) = (concat (map g_spans (rev m)) ++ filter (fun s => negb (span_skipped offset s)) l)%list.
 Proof.
   induction l as [|i r IH]; intros lastEnd m m' H; cbn [build_groups filter] in *.
   - inversion H; subst. now rewrite app_nil_r.
@@ -348,3 +359,370 @@ Proof.
   unfold groups_of. destruct (build_groups_ok (Z.of_nat offset) spans) as (m & Em & _). rewrite Em.
   apply build_groups_concat in Em. exact Em.
 Qed.
+
+(* ------------------------------------------------------------------ stripping the annotations *)
+Fixpoint nobr (s : string) : bool :=
+  match s with
+  | EmptyString => true
+  | String c r => negb (Ascii.eqb c lbr) && negb (Ascii.eqb c rbr) && nobr r
+  end.
+
+Lemma nobr_app a b : nobr (a ++ b) = nobr a && nobr b.
+Proof. induction a; cbn; [reflexivity|]. rewrite IHa. now rewrite !andb_assoc. Qed.
+Lemma nobr_stake n s : nobr s = true -> nobr (stake n s) = true.
+Proof.
+  revert s; induction n; intros [|c r]; cbn; auto. intros H.
+  apply andb_true_iff in H. destruct H as [H1 H2]. rewrite H1. cbn. auto.
+Qed.
+Lemma nobr_sdrop n s : nobr s = true -> nobr (sdrop n s) = true.
+Proof.
+  revert s; induction n; intros [|c r]; cbn; auto. intros H.
+  apply andb_true_iff in H. destruct H as [H1 H2]. auto.
+Qed.
+Lemma nobr_ssub s b e : nobr s = true -> nobr (ssub s b e) = true.
+Proof. intros. unfold ssub. now apply nobr_stake, nobr_sdrop. Qed.
+Lemma nobr_join sep l : nobr sep = true -> Forall (fun x => nobr x = true) l -> nobr (join sep l) = true.
+Proof.
+  intros Hs H. induction H as [|x l Hx Hl IH]; cbn; [reflexivity|].
+  destruct l; [exact Hx|]. rewrite !nobr_app, Hx, Hs. exact IH.
+Qed.
+
+Lemma strip_nobr_app a b : nobr a = true -> strip_go 0 (a ++ b) = a ++ strip_go 0 b.
+Proof.
+  induction a as [|c r IH]; cbn; intros H; [reflexivity|].
+  apply andb_true_iff in H. destruct H as [H1 H2]. apply andb_true_iff in H1. destruct H1 as [H0 H1].
+  destruct (Ascii.eqb c lbr); [discriminate|]. now rewrite IH.
+Qed.
+Lemma strip_in_bracket body rest : nobr body = true -> strip_go 1 (body ++ String rbr rest) = strip_go 0 rest.
+Proof.
+  induction body as [|c r IH]; cbn; intros H; [reflexivity|].
+  apply andb_true_iff in H. destruct H as [H1 H2]. apply andb_true_iff in H1. destruct H1 as [H0 H1].
+  destruct (Ascii.eqb c lbr); [discriminate|]. destruct (Ascii.eqb c rbr); [discriminate|]. now apply IH.
+Qed.
+Lemma strip_bracket body rest :
+  nobr body = true -> strip_go 0 (("[" ++ body ++ "]") ++ rest) = strip_go 0 rest.
+Proof.
+  intros H. cbn. rewrite sapp_assoc3. cbn. now apply strip_in_bracket.
+Qed.
+
+(* an annotation is either absent or one bracket group without inner brackets *)
+Definition simple_annot (a : string) : Prop :=
+  a = "" \/ exists body, a = "[" ++ body ++ "]" /\ nobr body = true.
+
+Lemma strip_value_annot v a rest :
+  nobr v = true -> simple_annot a -> strip_go 0 ((v ++ a) ++ rest) = v ++ strip_go 0 rest.
+Proof.
+  intros Hv [->|(body & -> & Hb)].
+  - rewrite sapp_nil_r. now apply strip_nobr_app.
+  - rewrite sapp_assoc3. rewrite strip_nobr_app by exact Hv. f_equal. now apply strip_bracket.
+Qed.
+
+Lemma strip_splice src (ann : group -> string) : nobr src = true -> forall gs p,
+  Forall (fun g => nobr (group_ret g) = true /\ simple_annot (ann g)) gs ->
+  strip_annotations (splice src p (map (fun g => (Z.to_nat (g_b g), Z.to_nat (g_e g), group_ret g ++ ann g)) gs)) =
+  splice src p (map value_only gs).
+Proof.
+  intros Hs. unfold strip_annotations. induction gs as [|g gs IH]; intros p H; cbn [map splice].
+  - rewrite <- (sapp_nil_r (sdrop p src)) at 1. rewrite strip_nobr_app by (now apply nobr_sdrop). cbn. apply sapp_nil_r.
+  - inversion H as [|? ? [Hv Ha] Hr]; subst. unfold value_only at 1. cbn [splice].
+    rewrite strip_nobr_app by (now apply nobr_ssub). f_equal.
+    rewrite strip_value_annot by assumption. f_equal. apply IH. exact Hr.
+Qed.
+
+(* bracket-free dice spans *)
+Definition span_clean (s : span) : Prop :=
+  nobr (sp_ret s) = true /\ nobr (sp_text s) = true /\ nobr (sp_expr s) = true /\ nobr (sp_suffix s) = true /\
+  sp_textonly s = false.
+Lemma dummy_clean : span_clean dummy_span.
+Proof. repeat split. Qed.
+Lemma last_clean l : Forall span_clean l -> span_clean (last l dummy_span).
+Proof. induction 1; cbn; [apply dummy_clean|]. destruct l; [assumption|]. exact IHForall. Qed.
+
+Lemma annotation_simple (rd : nat -> nat -> string) n g :
+  (forall b e, nobr (rd b e) = true) -> Forall span_clean (g_spans g) ->
+  simple_annot (annotation_with rd n g) /\ nobr (group_ret g) = true.
+Proof.
+  intros Hrd Hc.
+  assert (Hs : Forall span_clean (sort_end (g_spans g))) by (apply sort_end_Forall; exact Hc).
+  pose proof (last_clean _ Hs) as (L1 & L2 & L3 & L4 & L5).
+  split; [|exact L1].
+  unfold annotation_with.
+  set (lst := last (sort_end (g_spans g)) dummy_span) in *.
+  set (parts := filter nonempty (map (fun s => rd (Z.to_nat (sp_b s)) (Z.to_nat (sp_e s)) ++ "=" ++ sp_ret s)
+                                     (removelast (sort_end (g_spans g))))).
+  assert (Hparts : Forall (fun x => nobr x = true) parts).
+  { unfold parts. rewrite Forall_forall. intros x Hx. apply filter_In in Hx. destruct Hx as [Hx _].
+    apply in_map_iff in Hx. destruct Hx as (s & <- & Hin).
+    assert (F : Forall span_clean (removelast (sort_end (g_spans g)))) by (apply removelast_Forall; exact Hs).
+    rewrite Forall_forall in F. destruct (F s Hin) as (R1 & _). rewrite !nobr_app, Hrd, R1. reflexivity. }
+  set (subtxt := if Nat.ltb 1 (length (sort_end (g_spans g))) then
+                   match parts with [] => "" | _ => "," ++ join "," parts end else "").
+  assert (Hsub : nobr subtxt = true).
+  { unfold subtxt. destruct (Nat.ltb 1 _); [|reflexivity].
+    assert (J : nobr (join "," parts) = true) by (apply nobr_join; [reflexivity|exact Hparts]).
+    destruct parts; [reflexivity|]. rewrite nobr_app, J. reflexivity. }
+  set (base := rd (Z.to_nat (g_b g)) (Z.to_nat (g_e g))).
+  assert (Hbase : nobr base = true) by apply Hrd.
+  set (exprText := if nonempty (sp_expr lst) then sp_expr lst else base).
+  assert (Hex : nobr exprText = true) by (unfold exprText; destruct (nonempty (sp_expr lst)); [exact L3|exact Hbase]).
+  set (suffix0 := if nonempty (sp_suffix lst) then sp_suffix lst else "=").
+  assert (Hsf : nobr suffix0 = true) by (unfold suffix0; destruct (nonempty (sp_suffix lst)); [exact L4|reflexivity]).
+  rewrite L5.
+  (* d2 = "[" ++ X with X bracket-free *)
+  assert (D2 : exists X, nobr X = true /\
+     (if String.eqb (g_tag g) "load" then "[" ++ exprText ++ (if nonempty (sp_text lst) then "," ++ sp_text lst else "")
+      else if String.eqb (g_tag g) "load.computed"
+           then (if nonempty (sp_text lst) && negb (String.eqb (sp_ret lst) (sp_text lst))
+                 then ("[" ++ exprText) ++ suffix0 ++ sp_text lst else "[" ++ exprText) ++ suffix0 ++ sp_ret lst
+           else (if nonempty (sp_text lst) && negb (String.eqb (sp_ret lst) (sp_text lst))
+                 then ("[" ++ exprText) ++ suffix0 ++ sp_text lst else "[" ++ exprText)) = "[" ++ X).
+  { destruct (String.eqb (g_tag g) "load").
+    - eexists. split; [|reflexivity]. rewrite nobr_app, Hex. destruct (nonempty (sp_text lst)); [|reflexivity].
+      rewrite nobr_app, L2. reflexivity.
+    - destruct (nonempty (sp_text lst) && negb (String.eqb (sp_ret lst) (sp_text lst)));
+        destruct (String.eqb (g_tag g) "load.computed"); cbn [append];
+        eexists; (split; [|reflexivity]); rewrite ?nobr_app, ?Hex, ?Hsf, ?L1, ?L2; reflexivity. }
+  destruct D2 as (X & HX & ->).
+  match goal with |- simple_annot (if _ then _ else ?dd) => set (d4 := dd) end.
+  assert (H4 : simple_annot d4).
+  { unfold d4. destruct (Nat.eqb n 1 && _); [left; reflexivity|]. right. exists (X ++ subtxt). split.
+    - cbn [append]. now rewrite sapp_assoc3.
+    - now rewrite nobr_app, HX, Hsub. }
+  destruct (Nat.ltb 400 (String.length d4)); [|exact H4].
+  right. exists "略". split; reflexivity.
+Qed.
+
+(* ------------------------------------------------------------------ purity and idempotence of GetDetailText *)
+Theorem get_detail_text_idem data offset spans ret cache :
+  let '(t1, c1) := get_detail_text data offset spans ret cache in
+  let '(t2, c2) := get_detail_text data offset spans ret c1 in
+  t2 = t1 /\ c2 = c1.
+Proof.
+  unfold get_detail_text. destruct spans as [|s l]; [split; reflexivity|].
+  destruct (nonempty cache) eqn:Ec.
+  - rewrite Ec. split; reflexivity.
+  - destruct (nonempty (make_detail data offset (s :: l) ret)) eqn:Et; [split; reflexivity|].
+    split; reflexivity.
+Qed.
+
+Theorem get_detail_text_vm_pure {V R} (st : vmstate V R) :
+  let '(t, st') := get_detail_text_vm st in
+  vm_ret st' = vm_ret st /\ vm_vars st' = vm_vars st /\ vm_rng st' = vm_rng st /\
+  vm_data st' = vm_data st /\ vm_offset st' = vm_offset st /\ vm_spans st' = vm_spans st /\
+  (* a second request returns the same text and leaves the state as it is *)
+  get_detail_text_vm st' = (t, st') /\
+  (* right after Parse (cache = "") the text is a function of (data, offset, spans, ret) alone *)
+  (vm_cache st = "" -> t = match vm_spans st with [] => "" | _ => make_detail (vm_data st) (vm_offset st) (vm_spans st) (vm_ret st) end).
+Proof.
+  unfold get_detail_text_vm.
+  pose proof (get_detail_text_idem (vm_data st) (vm_offset st) (vm_spans st) (vm_ret st) (vm_cache st)) as H.
+  destruct (get_detail_text (vm_data st) (vm_offset st) (vm_spans st) (vm_ret st) (vm_cache st)) as [t c] eqn:E1.
+  cbn [vm_ret vm_vars vm_rng vm_data vm_offset vm_spans vm_cache].
+  destruct (get_detail_text (vm_data st) (vm_offset st) (vm_spans st) (vm_ret st) c) as [t2 c2] eqn:E2.
+  destruct H as [-> ->].
+  repeat split.
+  intros Hc. unfold get_detail_text in E1. rewrite Hc in E1. destruct (vm_spans st); cbn in E1; inversion E1; reflexivity.
+Qed.
+
+(* ------------------------------------------------------------------ C14: shape for well-formed span lists *)
+(* what a run of the fragment records: every span inside the matched text, sorted by Begin (solveDetail) *)
+Definition wf_spans (offset : nat) (spans : list span) : Prop :=
+  Forall (span_in (Z.of_nat offset)) spans /\
+  StronglySorted (fun a b => (sp_b a <= sp_b b)%Z) spans.
+
+Lemma filter_all {A} (f : A -> bool) l : Forall (fun x => f x = true) l -> filter f l = l.
+Proof. induction 1; cbn; [reflexivity|]. rewrite H. congruence. Qed.
+
+Theorem detail_shape data offset spans ret :
+  offset <= String.length data -> wf_spans offset spans ->
+  let src := stake offset data in
+  let gs := groups_of offset spans in
+  (* the text: source with each group [b,e) replaced by value ++ annotation, then the final rule *)
+  make_detail data offset spans ret = finish (splice src 0 (map (replacement (length gs) src) gs)) ret /\
+  (* the groups: inside the matched text, strictly separated, in source order; no span is lost *)
+  Forall (group_ok (Z.of_nat offset)) gs /\ sep_fwd gs /\ concat (map g_spans gs) = spans.
+Proof.
+  intros Hoff [Hin Hsort]. cbv zeta.
+  split; [unfold make_detail; rewrite detail_shape_all by exact Hoff; reflexivity|].
+  destruct (groups_wf offset spans) as [G1 G2]. split; [exact G1|]. split; [exact G2|].
+  rewrite groups_partition. apply filter_all.
+  eapply Forall_impl; [|exact Hin]. intros s Hs. unfold span_in in Hs. unfold span_skipped. lia.
+Qed.
+
+Lemma Forall_concat_groups (P : span -> Prop) gs :
+  Forall P (concat (map g_spans gs)) -> Forall (fun g => Forall P (g_spans g)) gs.
+Proof.
+  induction gs as [|g gs IH]; cbn; intros H; [constructor|].
+  apply Forall_app in H. destruct H. constructor; auto.
+Qed.
+Lemma Forall_filter {A} (P : A -> Prop) f l : Forall P l -> Forall P (filter f l).
+Proof. induction 1; cbn; [constructor|]. destruct (f x); [constructor|]; auto. Qed.
+
+(* stripping the annotations of the (untrimmed) text gives the source with each top-level roll replaced by its value *)
+Theorem strip_is_source_with_values data offset spans :
+  let src := stake offset data in
+  let gs := groups_of offset spans in
+  nobr src = true -> Forall span_clean spans ->
+  strip_annotations (splice src 0 (map (replacement (length gs) src) gs)) = splice src 0 (map value_only gs).
+Proof.
+  cbv zeta. intros Hs Hc.
+  set (src := stake offset data). set (gs := groups_of offset spans).
+  assert (Hg : Forall (fun g => Forall span_clean (g_spans g)) gs).
+  { apply Forall_concat_groups. unfold gs. rewrite groups_partition. apply Forall_filter. exact Hc. }
+  unfold replacement.
+  apply (strip_splice src (fun g => annotation (length gs) src g) Hs gs 0).
+  eapply Forall_impl; [|exact Hg]. intros g Hgc. cbv beta.
+  destruct (annotation_simple (ssub src) (length gs) g) as [A1 A2]; [intros; now apply nobr_ssub|exact Hgc|].
+  split; [exact A2|exact A1].
+Qed.
+
+(* ------------------------------------------------------------------ the annotation of a single dice span *)
+Definition dice_span (b e : Z) (num : Z) (txt tag : string) : span :=
+  mkSpan b e (show_Z num) txt "" tag false "".
+Definition dice_group (b e : Z) (num : Z) (txt tag : string) : group :=
+  mkGroup b e tag [dice_span b e num txt tag].
+
+Lemma string_eqb_false_tag tag : tag <> "load" -> tag <> "load.computed" ->
+  String.eqb tag "load" = false /\ String.eqb tag "load.computed" = false.
+Proof. intros H1 H2. split; apply String.eqb_neq; assumption. Qed.
+
+(* value[source=dice text] — or value[source] when the dice text is the value itself (rule 1.1), nothing when
+   that is the whole input (rule 1.3), [略] above 400 bytes *)
+Theorem dice_annotation_format rd n b e num txt tag :
+  tag <> "load" -> tag <> "load.computed" ->
+  let base := rd (Z.to_nat b) (Z.to_nat e) in
+  let body := if nonempty txt && negb (String.eqb (show_Z num) txt) then base ++ "=" ++ txt else base in
+  let d3 := "[" ++ body ++ "]" in
+  let d4 := if Nat.eqb n 1 && String.eqb d3 ("[" ++ base ++ "]") then "" else d3 in
+  group_ret (dice_group b e num txt tag) = show_Z num /\
+  annotation_with rd n (dice_group b e num txt tag) = if Nat.ltb 400 (String.length d4) then "[略]" else d4.
+Proof.
+  intros H1 H2. cbv zeta. split; [reflexivity|].
+  destruct (string_eqb_false_tag tag H1 H2) as [E1 E2].
+  unfold annotation_with, dice_group, dice_span.
+  cbn [g_spans g_b g_e g_tag sort_end insert_end last removelast map filter length Nat.ltb Nat.leb
+       sp_expr sp_ret sp_text sp_suffix sp_textonly sp_b sp_e nonempty].
+  rewrite E1, E2.
+  destruct (nonempty txt && negb (String.eqb (show_Z num) txt)); cbn [append]; rewrite ?sapp_assoc3; cbn [append]; reflexivity.
+Qed.
+
+(* ------------------------------------------------------------------ C14: the value before the bracket is the total of the dice listed *)
+From DS Require Import Model.PCG Model.Roll Model.Dice Proofs.DiceProofs.
+
+Section Totals.
+  Variable S : Type.
+  Variable next : S -> N * S.
+  Hypothesis next_word : forall s, (fst (next s) < W64)%N.
+  Open Scope Z_scope.
+
+  (* XdY with every modifier: the span the VM records is (show_Z num, txt); txt lists `times` dice, `pick` of them
+     before the bar; num is their total; and the text determines the dice and the bar position, hence the total *)
+  Theorem annotation_total_common fuel times d dmin dmax keep lo hi mode s num txt s' :
+    0 <= times -> 1 <= d <= MaxInt64 - 1 ->
+    roll_common next fuel times d dmin dmax keep lo hi mode s = Done ((num, txt), s') ->
+    let pick := pick_num times keep lo hi in
+    exists shown : list Z,
+      Z.of_nat (length shown) = times /\ 0 <= pick <= times /\
+      txt = common_text times pick shown /\
+      num = sum64 (firstn (Z.to_nat pick) shown) /\
+      (forall shown' pick', 0 <= pick' <= times -> Z.of_nat (length shown') = times ->
+         common_text times pick' shown' = txt ->
+         shown' = shown /\ pick' = pick /\ sum64 (firstn (Z.to_nat pick') shown') = num).
+  Proof.
+    intros Ht Hd H. cbv zeta.
+    destruct (roll_common_legal S next next_word fuel times d dmin dmax keep lo hi mode s num txt s' Ht Hd H)
+      as (draws & shown & _ & _ & Hl & _ & _ & _ & _ & Hn & Htxt).
+    pose proof (pick_num_range times keep lo hi Ht) as Hp.
+    exists shown. split; [exact Hl|]. split; [exact Hp|]. split; [exact Htxt|]. split; [exact Hn|].
+    intros shown' pick' Hp' Hl' E. rewrite Htxt in E.
+    destruct (common_text_inj times pick' (pick_num times keep lo hi) shown' shown Hp' Hp Hl' Hl E) as [-> ->].
+    split; [reflexivity|]. split; [reflexivity|]. symmetry. exact Hn.
+  Qed.
+
+  (* Fate: four symbols, value = number of '+' minus number of '-' *)
+  Theorem annotation_total_fate fuel mode s sum txt s' :
+    roll_fate next fuel mode s = Done ((sum, txt), s') ->
+    String.length txt = 4%nat /\ Forall fate_char (list_ascii_of_string txt) /\
+    sum = count_char "+" txt - count_char "-" txt.
+  Proof.
+    intros H. destruct (roll_fate_spec S next next_word fuel mode s sum txt s' H) as (A & B & C & _). auto.
+  Qed.
+
+  (* CoC bonus / penalty: the text lists the D100 roll and the extra tens digits; the value is the best / worst
+     combination of a listed tens digit with the units digit *)
+  Theorem annotation_total_coc fuel isBonus diceNum mode s num txt s' :
+    0 <= diceNum ->
+    roll_coc next fuel isBonus diceNum mode s = Done ((num, txt), s') ->
+    exists (res : Z) (digits : list Z),
+      txt = "(D100=" ++ show_Z res ++ (if isBonus then ",奖励" else ",惩罚") ++ join " " (map show_Z digits) ++ ")" /\
+      Z.of_nat (length digits) = diceNum /\
+      (let u := res mod 10 in
+       let t0 := (res / 10) mod 10 in
+       num = (if isBonus
+              then fold_right Z.min (coc_val t0 u) (map (fun c => coc_val c u) digits)
+              else fold_right Z.max (coc_val t0 u) (map (fun c => coc_val c u) digits))).
+  Proof.
+    intros Hn H.
+    destruct (roll_coc_spec S next next_word fuel isBonus diceNum mode s num txt s' Hn H)
+      as (res & digits & _ & Hl & _ & Hv & _ & Ht).
+    exists res, digits. auto.
+  Qed.
+
+  (* WoD / Double Cross: the text starts with the two counters; the value is the first of them *)
+  Theorem annotation_total_wod_header rfuel fuel addLine pool points threshold isGE mode s succ all rounds txt s' :
+    roll_wod next rfuel fuel addLine pool points threshold isGE mode s = Done ((succ, all, rounds, txt), s') ->
+    exists tail, txt = "成功" ++ show_Z succ ++ "/" ++ show_Z all ++ tail.
+  Proof.
+    unfold roll_wod. intros H.
+    destruct (wod_rounds next rfuel fuel addLine points threshold isGE mode pool (pool <? 15) pool 0 1 [] s)
+      as [[[[[succ0 all0] rounds0] details] s1]|]; [|discriminate].
+    inversion H; subst. eexists. reflexivity.
+  Qed.
+  Theorem annotation_total_dc_header rfuel fuel addLine pool points mode s result all rounds txt s' :
+    roll_dc next rfuel fuel addLine pool points mode s = Done ((result, all, rounds, txt), s') ->
+    exists head tail, txt = head ++ "出目" ++ show_Z result ++ "/" ++ show_Z all ++ tail /\ (head = "" \/ head = "大失败 ").
+  Proof.
+    unfold roll_dc. intros H.
+    destruct (dc_rounds next rfuel fuel addLine points mode pool (pool <? 15) pool 0 1 [] s)
+      as [[[[[result0 all0] rounds0] details] s1]|]; [|discriminate].
+    cbv zeta in H. inversion H; subst.
+    destruct (result =? 1).
+    - exists "大失败 ". eexists. split; [|right; reflexivity]. reflexivity.
+    - exists "". eexists. split; [|left; reflexivity]. reflexivity.
+  Qed.
+End Totals.
+
+(* ------------------------------------------------------------------ C14: the stripped text evaluates to the value *)
+(* Full statement (for every fragment expression, any spacing): NOT proved in full — it needs a printer/parser
+   round trip for eval_arith (decimal rendering included).  Kept as a Prop; below a bounded instance proved by
+   exhaustive evaluation, and the check evaluates eval_arith (strip_annotations text) inside Coq on every text
+   Go produced for the fragment stream (Corr14.c14_eval_ok). *)
+Definition strip_evaluates_statement : Prop :=
+  forall e : aexp, prec_ok e = true -> eval_arith (aprint e) = Some (avalue e).
+
+Definition sample_atoms : list aexp := [ANum 0; ANum 7; ANum 12; ARoll (-3); ARoll 100].
+Definition sample_ws : list string := [""; " "; String (ascii_of_N 10) " "].
+Definition sample_unary : list aexp :=
+  (sample_atoms ++ flat_map (fun a => [ANeg "" a; ANeg " " a; APos "" a; ANeg "" (ANeg "" a)]) sample_atoms)%list.
+Definition sample_bin (ls rs : list aexp) (ops : list binop) : list aexp :=
+  flat_map (fun l => flat_map (fun r => flat_map (fun o => flat_map (fun w1 => map (fun w2 => ABin o l w1 w2 r) sample_ws) sample_ws) ops) rs) ls.
+Definition sample_terms : list aexp := (sample_unary ++ sample_bin sample_unary sample_atoms [OMul])%list.
+Definition sample_level2 : list aexp :=
+  (sample_atoms ++ map (fun e => AParen " " e "") (sample_bin sample_atoms sample_atoms [OAdd; OSub; OMul]))%list.
+Definition sample_exprs : list aexp :=
+  (sample_terms ++ sample_bin sample_terms sample_level2 [OAdd; OSub] ++
+   sample_bin (sample_bin sample_atoms sample_atoms [OAdd; OSub; OMul]) sample_level2 [OAdd; OSub; OMul])%list.
+Definition strip_eval_ok (e : aexp) : bool :=
+  negb (prec_ok e) ||
+  match eval_arith (aprint e) with Some v => Z.eqb v (avalue e) | None => false end.
+
+Theorem strip_evaluates_partial :
+  forall e, In e sample_exprs -> prec_ok e = true -> eval_arith (aprint e) = Some (avalue e).
+Proof.
+  assert (H : forallb strip_eval_ok sample_exprs = true) by (vm_compute; reflexivity).
+  rewrite forallb_forall in H. intros e He Hp. specialize (H e He). unfold strip_eval_ok in H.
+  rewrite Hp in H. cbn [negb orb] in H.
+  destruct (eval_arith (aprint e)) as [v|]; [|discriminate]. apply Z.eqb_eq in H. congruence.
+Qed.
+Lemma sample_exprs_count : (1000 <=? length (filter prec_ok sample_exprs))%nat = true.
+Proof. vm_compute. reflexivity. Qed.
